@@ -22,12 +22,12 @@ theorem compsOf_single {c : Name} (h : GoodName c) : compsOf c = [c] := by
   rw [compsOf_good (good_single h), splitSlash_clean h.2.1]
 
 theorem locate_single (fs : FS) (D : List Name) {c : Name} (h : GoodName c) :
-    locate fs D c = match get fs.root D with
+    locate0 fs D c = match get fs.root D with
       | some (.dir ..) => if c.length > nameMax then .error .ENAMETOOLONG else .ok (.entry D c)
       | some (.file _) => .error .ENOTDIR
       | none => .error .ENOENT := by
   have hg := good_single h
-  unfold locate
+  unfold locate0
   simp only [hg.ne_nil, if_false, isAbs_good hg, compsOf_single h, List.getLast?_singleton,
     h.2.2.1, h.2.2.2, trailingSlash_good hg, Bool.false_eq_true, or_self, List.dropLast_singleton]
   rw [walk]
@@ -45,7 +45,10 @@ theorem lookup_single (fs : FS) (D : List Name) {c : Name} (h : GoodName c) {tD 
         | some t => .ok (D ++ [c], t)
         | none => .error .ENOENT := by
   unfold lookupNoFollow
-  rw [locate_single fs D h, hD]
+  by_cases hbig : c.length ≥ pathMax
+  · have : c.length > nameMax := by unfold pathMax at hbig; unfold nameMax; omega
+    simp only [locate, hbig, if_true, this]
+  rw [locate_of_lt (by omega), locate_single fs D h, hD]
   cases tD with
   | file i => simp [Tree.isDir] at hdir
   | dir m mt es =>
@@ -69,6 +72,25 @@ theorem good_join {L : List Name} (hL : L ≠ []) (h : ∀ x ∈ L, GoodName x) 
 theorem compsOf_join {L : List Name} (hL : L ≠ []) (h : ∀ x ∈ L, GoodName x) : compsOf (joinSlash L) = L := by
   rw [compsOf_good (good_join hL h), split_join L hL (fun c hc => (h c hc).2.1)]
 
+/-- `fstatat(dfd, c, …)` when the descriptor is not on a directory (any more). -/
+theorem lookup_single_nodir (fs : FS) (D : List Name) {c : Name} (h : GoodName c)
+    (hD : ∀ t, get fs.root D = some t → t.isDir = false) : ∃ e, lookupNoFollow fs D c = .error e := by
+  unfold lookupNoFollow
+  by_cases hbig : c.length ≥ pathMax
+  · exact ⟨.ENAMETOOLONG, by simp only [locate, hbig, if_true]⟩
+  rw [locate_of_lt (by omega), locate_single fs D h]
+  cases hg : get fs.root D with
+  | none => exact ⟨_, rfl⟩
+  | some t =>
+    cases t with
+    | file i => exact ⟨_, rfl⟩
+    | dir m mt es => have := hD _ hg; simp [Tree.isDir] at this
+
+theorem noLinkT_file (fs : FS) (i : Nat) (cs : List Name) : NoLinkT fs (.file i) cs := by
+  cases cs with
+  | nil => trivial
+  | cons c r => simp [NoLinkT, Tree.child]
+
 /-- With a non-empty `hd` the `fstatat` cannot succeed. -/
 theorem lookup_hd_err (pr : Proc) (D : List Name) (h : Name) (hd' : List Name) (cc : Name)
     (hg : ∀ x ∈ (h :: hd') ++ [cc], GoodName x)
@@ -80,7 +102,11 @@ theorem lookup_hd_err (pr : Proc) (D : List Name) (h : Name) (hd' : List Name) (
   have hcomps := compsOf_join hne hg
   have hR := rel_good hG
   have hgh : GoodName h := hg h (by simp)
-  unfold lookupNoFollow locate
+  unfold lookupNoFollow
+  by_cases hbig : (joinSlash ((h :: hd') ++ [cc])).length ≥ pathMax
+  · exact ⟨.ENAMETOOLONG, by simp only [locate, hbig, if_true]⟩
+  rw [locate_of_lt (by omega)]
+  unfold locate0
   simp only [hG.ne_nil, if_false, hR.notAbs, hcomps]
   have hlast : ((h :: hd') ++ [cc]).getLast? = some cc := by
     rw [List.getLast?_append]; simp
@@ -147,7 +173,7 @@ theorem doUnlink_single (pr : Proc) (D : List Name) {cc : Name} (hc : GoodName c
     (hch : tD.child cc = some (.file i)) :
     doUnlink pr D cc = (.ok, { pr with fs := delAt pr.fs D cc }) := by
   unfold doUnlink
-  rw [locate_single pr.fs D hc, hD]
+  rw [locate_of_lt (by unfold pathMax; unfold nameMax at hl; omega), locate_single pr.fs D hc, hD]
   cases tD with
   | file j => simp [Tree.isDir] at hdir
   | dir m mt es =>
@@ -221,7 +247,8 @@ theorem lookupFollow_single_dir (fs : FS) (D : List Name) {cc : Name} (hgc : Goo
     lookupFollow fs D cc = .ok (D ++ [cc], .dir m' mt' es') := by
   have hg := good_single hgc
   have hget : get fs.root (D ++ [cc]) = some (.dir m' mt' es') := by rw [get_snoc, hD]; exact hch
-  unfold lookupFollow
+  rw [lookupFollow_of_lt (by unfold pathMax; unfold nameMax at hlen; omega)]
+  unfold lookupFollow0
   simp only [hg.ne_nil, if_false, isAbs_good hg, compsOf_single hgc, Bool.false_eq_true]
   rw [walk]
   simp only [hD, hgc.2.2.1, hgc.2.2.2, if_false, hlen, hch]
@@ -247,17 +274,17 @@ theorem checkLoop_spec (c : Ctx) (fl : XFlags) (hsec : fl.secureSymlinks = true)
       simp only [List.nil_append, joinSlash]
       cases hD : get pr.fs.root D with
       | none =>
-        have : lookupNoFollow pr.fs D cc = .error .ENOENT := by
-          unfold lookupNoFollow; rw [locate_single pr.fs D hgc, hD]
-        simp only [this, statR]
-        exact loopPost_refl c D _ pr _ ⟨D, hdfd⟩ (fun _ t ht => by rw [hD] at ht; simp at ht)
+        obtain ⟨e, he⟩ := lookup_single_nodir pr.fs D hgc (fun t ht => by rw [hD] at ht; simp at ht)
+        simp only [he, statR]
+        cases e <;> exact loopPost_refl c D _ pr _ ⟨D, hdfd⟩ (fun _ t ht => by rw [hD] at ht; simp at ht)
       | some tD =>
         cases tD with
         | file i =>
-          have : lookupNoFollow pr.fs D cc = .error .ENOTDIR := by
-            unfold lookupNoFollow; rw [locate_single pr.fs D hgc, hD]
-          simp only [this, statR]
-          exact loopPost_refl c D _ pr _ ⟨D, hdfd⟩ (fun h => by simp [Prog.run] at h)
+          obtain ⟨e, he⟩ := lookup_single_nodir pr.fs D hgc
+            (fun t ht => by rw [hD] at ht; simp only [Option.some.injEq] at ht; subst ht; rfl)
+          simp only [he, statR]
+          cases e <;> exact loopPost_refl c D _ pr _ ⟨D, hdfd⟩
+            (fun _ t ht => by rw [hD] at ht; simp only [Option.some.injEq] at ht; subst ht; exact noLinkT_file _ _ _)
         | dir m mt es =>
           have hlk := lookup_single pr.fs D hgc hD rfl
           by_cases hlen : cc.length > nameMax
@@ -457,7 +484,9 @@ theorem checkSymlinks_spec (c : Ctx) (fl : XFlags) (hsec : fl.secureSymlinks = t
 
 theorem lookup_dot_isDir (fs : FS) (D : List Name) {pos : List Name} {t : Tree}
     (h : lookupNoFollow fs D [DOT] = .ok (pos, t)) : t.isDir = true := by
-  unfold lookupNoFollow locate at h
+  unfold lookupNoFollow at h
+  rw [locate_of_lt (by decide)] at h
+  unfold locate0 at h
   have e : compsOf [DOT] = [DOTN] := by decide
   simp only [show ([DOT] : List Nat) ≠ [] by decide, if_false, e, List.getLast?_singleton, true_or, if_true] at h
   split at h
